@@ -36,15 +36,26 @@ func opaqueFns(r *Run) map[*ssa.Function]string {
 
 // expirationFn finds the method of the cache type with signature func(time.Duration) int64.
 func expirationFn(r *Run, twin int) *ssa.Function {
+	// candidates: (Duration) -> int64 where the result is an instant, i.e. not itself a Duration (a helper that resolves the
+	// DefaultExpiration sentinel to a Duration has the same underlying signature); among several the one most cache methods call,
+	// then by name, so that the choice does not depend on map order
+	var best *ssa.Function
+	bestCalls := -1
 	for _, f := range r.M.CacheM[twin] {
 		sig := f.Signature
-		if sig.Params().Len() == 1 && sig.Results().Len() == 1 && strings.HasSuffix(typeName(sig.Params().At(0).Type()), "Duration") {
-			if b, ok := sig.Results().At(0).Type().Underlying().(*types.Basic); ok && b.Kind() == types.Int64 {
-				return f
-			}
+		if sig.Params().Len() != 1 || sig.Results().Len() != 1 || !strings.HasSuffix(typeName(sig.Params().At(0).Type()), "Duration") {
+			continue
+		}
+		rt := sig.Results().At(0).Type()
+		if b, ok := rt.Underlying().(*types.Basic); !ok || b.Kind() != types.Int64 || strings.HasSuffix(typeName(rt), "Duration") {
+			continue
+		}
+		n := len(core.CallSitesOf(r.P.Funcs, f))
+		if n > bestCalls || (n == bestCalls && f.Name() < best.Name()) {
+			best, bestCalls = f, n
 		}
 	}
-	return nil
+	return best
 }
 
 // fieldRoles derives the canonical role names of unexported fields structurally: in each item type the int64
